@@ -33,4 +33,13 @@ def movingBand (chunks : List Int) (x : List α) (m : MPlan) : List α :=
   | some g, some h => (blocksRange chunks x g.toNat (h.toNat + 1)).flatten
   | _, _ => []
 
+/-! NumPy `np.pad` index maps for an axis of length `n`, unpadded coordinate `q ∈ [-n, 2n)` -/
+
+/-- `np.pad(mode="wrap")` -/
+def padWrap (n q : Int) : Int := if q < 0 then q + n else if q ≥ n then q - n else q
+/-- `np.pad(mode="symmetric")` -/
+def padSymmetric (n q : Int) : Int := if q < 0 then -q - 1 else if q ≥ n then 2 * n - 1 - q else q
+/-- `np.pad(mode="edge")` -/
+def padEdge (n q : Int) : Int := max 0 (min (n - 1) q)
+
 end Dask.Window
